@@ -8,12 +8,12 @@ LEVEL_TEXT = (
     '"this intermediate fits its Rust type (i32/u32/i64/u64/usize), this divisor is not zero, this debug_assert holds" for every arithmetic '
     'site of f and of the callees it reaches. coq/Properties/C08.v proves (lia/nia, no axioms) C08_<f>_total: f_ok = true for ALL '
     'display-scale inputs (|coordinate| <= 1024, extents <= 1024, stroke widths and offsets <= 128, edge lines of thick segments within '
-    '+-1280, mono fonts up to 64 px cells and 65536 characters, line heights <= 1024 px / 400 %) for Point/Size/Rectangle operations, '
+    '+-1800, mono fonts up to 64 px cells and 65536 characters, line heights <= 1024 px / 400 %) for Point/Size/Rectangle operations, '
     'PrimitiveStyle stroke/fill areas, Circle/Ellipse contains + center_2x + thresholds + offset, EllipseQuadrant, CornerRadii::confine, '
     'Line delta/perpendicular/midpoint, BresenhamParameters, the complete Line::points loop (exactly major_length <= 2049 steps), '
     'increase/decrease_error, next_all/previous_all and ParallelsIterator::next per step with inductive invariants, '
     'ParallelsIterator::new / ThickPoints::new (i64 threshold), LinearEquation, IntersectionParams (i64 numerators, round_div), the join '
-    'points (|coordinate| <= 13108481 proved: SaturatingAs never saturates, `intersection - mid` cannot overflow) and the miter test, Triangle area_doubled / contains (whole path), mono text layout (baseline offset, measure_string, draw_string, line advance), '
+    'points (|coordinate| <= 25921801 proved: SaturatingAs never saturates, `intersection - mid` cannot overflow) and the miter test, Triangle area_doubled / contains (whole path), mono text layout (baseline offset, measure_string, draw_string, line advance), '
     'LineHeight, ImageRaw bytes_per_row / data_width / draw / draw_sub_image / pixel, ContiguousPixels (every step safe; stops after '
     'exactly w*h+1 calls) and Cropped. Tie 1 (translator): translate/gen_arith.py regenerates from the tree under test the '
     'identifier-free skeleton of every arithmetic / cast / index / unwrap site of every non-test function of 22 source files; '
@@ -43,18 +43,16 @@ RULE = ('correspondence ok_*: f_ok (model) vs panic / no panic (implementation, 
         'again on the fixed_point build (p_fixed_point lines).')
 ASSUMPTIONS = ['display scale as stated in each theorem (ds_* / edge_* predicates of coq/Model/Overflow.v); outside it f_ok may be false '
                '(and the code then panics with overflow checks: the correspondence suites exercise exactly that)',
-               'the join theorems (C08_join_edges_total ...) take the four edge lines of the thick segments as inputs, within +-1280 '
+               'the join theorems (C08_join_edges_total ...) take the four edge lines of the thick segments as inputs, within +-1800 '
                '(= display scale + twice the maximal stroke width); that Line::extents stays in this range is not proved']
 TRUSTED = ['translate/gen_arith.py (tokeniser-level skeletons; operands are not compared, only the shape of the arithmetic)',
            'the mapping function -> predicate in translate/record_skeletons.py / the `recorded` table is maintained by hand',
            'modelled, not verified: az::SaturatingAs, i32 `/` as Z.quot, u32 and usize `/` as Z.div, `as` between equal-width integers as wrap']
 PARTIAL = [
-    'unmodelled functions of the covered files (explicit list unmodelled_fns in coq/Model/Overflow.v): Line::extents, '
-    'OriginLinearEquation::with_angle (float / fixed trigonometry), Triangle::is_collapsed, Triangle::sorted_clockwise and the From/TryFrom '
-    'conversions (constant indices into fixed arrays), Index for Point/Size, Triangle::from_slice, ImageRaw::new_const (documented panics)',
-    'thick lines and joins: per-step theorems with inductive invariants (C08_next_all_total, C08_previous_all_total, '
-    'C08_increase_error_total, C08_decrease_error_total, C08_parallels_next_total) but no theorem for the whole ParallelsIterator / '
-    'ThickPoints / LineJoin::from_points loop (Line::extents unmodelled); covered by p_total',
+    'Triangle::is_collapsed: C08_is_collapsed_step_total assumes the inner corner of the join within +-131072 (the proved bound of a '
+    'join point is 25921801, which is not enough for the i32 dot product of check_side); covered by p_total',
+    'OriginLinearEquation::with_angle: only the integer part (rotate_90 of the scaled cosine / sine, |.| <= 1025) is modelled; the '
+    'trigonometry itself is an external call (micromath / fixed)',
     'no ok_* correspondence (skeleton tie + p_total only) for: circle/ellipse offset, EllipseQuadrant, increase/decrease_error, next_all / '
     'previous_all, ParallelsIterator::next, miter, text lines, ImageRaw draw/pixel, ContiguousPixels, Cropped (image and raw parts: C08_image, C08_raw)',
     'files outside translate/gen_arith.py FILES (arc, sector, polyline, scanline fills, styled iterators, mono font draw target, framebuffer) '
@@ -213,6 +211,24 @@ def cases(tier, rng):
         yield J('ok_tri_contains', *tv, *q)
         if m <= 1000:
             yield J('ok_tri_contains', *tv, rng.randrange(-m, m + 1), rng.randrange(-m, m + 1))
+        yield J('ok_index', rng.choice([0, 1, 2, 3, 2 ** 31, 2 ** 40]))
+        yield J('ok_from_slice', rng.randrange(0, 6))
+        cw_, ch_, cb_ = rng.randrange(0, 20), rng.randrange(0, 9), rng.choice([1, 8, 16, 24])
+        yield J('ok_new_const', cw_, ch_, cb_, max(0, (cw_ * cb_ + 7) // 8 * ch_ + rng.choice([0, 0, 1, -1, 5])))
+        # whole thick-line walk (ParallelsIterator, Line::extents, ThickPoints, LineJoin::from_points through verif_hooks):
+        # moderate widths (the walk has ~3w steps), vertices at display scale, near 2^15 (i32 products of the join) and at the i32 edge
+        wq = rng.choice([0, 1, 2, 3, 5, 8, 20, 40, 128])
+        mq = rng.choice([30, 300, 1024, 23170, 32768, 46341, 2 ** 20])
+        jv = [rng.choice([mq, -mq, rng.randrange(-mq, mq + 1), rng.randrange(-30, 31)]) for _ in range(6)]
+        if abs(jv[2] - jv[0]) + abs(jv[3] - jv[1]) < 4000 and abs(jv[4] - jv[2]) + abs(jv[5] - jv[3]) < 4000 or wq <= 8:
+            yield J('ok_join', *jv, wq, rng.randrange(3))
+        yield J('ok_extents', *jv[:4], wq, rng.randrange(3))
+        qx, qy = rng.choice([I32 - 1, -I32, I32 - 40, -I32 + 40]), rng.choice([0, I32 - 1, -I32, 17])
+        qdx, qdy = rng.randrange(-25, 26), rng.randrange(-25, 26)
+        yield J('ok_extents', ci(qx - qdx), ci(qy - qdy), qx, qy, rng.choice([1, 2, 3, 9, 30]), rng.randrange(3))
+        yield J('ok_thick_points', ci(qx - qdx), ci(qy - qdy), qx, qy, rng.choice([0, 1, 2, 3, 9, 30]))
+        yield J('ok_thick_points', rng.randrange(-60, 61), rng.randrange(-60, 61), rng.randrange(-60, 61), rng.randrange(-60, 61), rng.choice([0, 1, 2, 3, 7, 20, 2 ** 31, 2 ** 32 - 1]) if rng.random() < 0.8 else 4)
+        yield J('ok_join', ci(qx - qdx), ci(qy - qdy), qx, qy, ci(qx - qdy), ci(qy + qdx), rng.choice([1, 2, 5, 12]), rng.randrange(3))
         # line equations / intersections (verif_hooks): i32 dot products and determinants need coordinates near 2^15
         m = rng.choice([10, 1000, 1280, 16384, 23170, 23171, 32767, 32768, 46340, 46341, 65536, 2 ** 20, 2 ** 30])
         lv = [rng.choice([m, -m, m - 1, 1 - m, rng.randrange(-m, m + 1), 0, 1]) for _ in range(8)]
@@ -263,9 +279,14 @@ def search(tier, rng):
     if exe is None:
         yield 'p_fixed_point FAIL class=fixed_point_build the harness does not build with --features fixed_point'
         return
-    sel = [l for k, l in enumerate(lines) if l.startswith('p_total arc') or l.startswith('p_total sector') or k % 4 == 0]
-    procs = []
+    # selection per case, not per position (the batch is a 12-family round robin: a stride would alias with it):
+    # every arc / sector / dotted rectangle (the users of `Real`), a random quarter of everything else
+    def dotted(l):
+        t = l.split()
+        return t[1] == 'rect' and 'S' in t and len(t) - t.index('S') - 1 >= 5 and t[-1] == '1'
+    sel = [l for l in lines if l.startswith('p_total arc') or l.startswith('p_total sector') or dotted(l) or rng.random() < 0.25]
     nsh = 4
+    procs = []
     for j in range(nsh):
         part = sel[j::nsh]
         procs.append((part, subprocess.Popen([exe], stdin=subprocess.PIPE, stdout=subprocess.PIPE, stderr=subprocess.DEVNULL, text=True)))
@@ -273,15 +294,52 @@ def search(tier, rng):
     outs = {}
 
     def feed(j, part, p):
-        o, _ = p.communicate('\n'.join(part) + '\n')
+        try:
+            o, _ = p.communicate('\n'.join(part) + '\n', timeout=900 if tier == 'quick' else 3000)
+        except subprocess.TimeoutExpired:
+            p.kill()
+            o, _ = p.communicate()
         outs[j] = o.split('\n')
     th = [threading.Thread(target=feed, args=(j, part, p)) for j, (part, p) in enumerate(procs)]
     [t.start() for t in th]
     [t.join() for t in th]
     for j, (part, _) in enumerate(procs):
         for k, l in enumerate(part):
-            r = outs[j][k] if k < len(outs[j]) and outs[j][k] else 'MISSING-OUTPUT'
+            r = outs[j][k] if k < len(outs[j]) and outs[j][k] else 'MISSING-OUTPUT (fixed_point oracle killed or timed out)'
             yield 'p_fixed_point %s :: %s' % (r, l)
+
+
+def degenerate(rng, case):
+    """coincident / collinear vertices for lines, triangles and polylines (zero length, two or three equal vertices, collinear)"""
+    t = case.split()
+    fam = t[0]
+    k = rng.random()
+    if fam == 'line' and k < 0.2:
+        t[3], t[4] = t[1], t[2]
+    elif fam == 'tri' and k < 0.3:
+        p = [(int(t[1]), int(t[2])), (int(t[3]), int(t[4])), (int(t[5]), int(t[6]))]
+        if k < 0.05:
+            p = [p[0]] * 3
+        elif k < 0.2:
+            i, j = rng.sample(range(3), 2)
+            p[j] = p[i]
+        else:
+            # collinear, distinct
+            # simple exact construction: p2 := p1 + 2d, p3 := p1 + d  (d small enough to stay in range)
+            dx, dy = rng.randrange(-400, 401), rng.randrange(-400, 401)
+            x0, y0 = max(-200, min(200, p[0][0])), max(-200, min(200, p[0][1]))
+            p = [(x0, y0), (x0 + 2 * dx, y0 + 2 * dy), (x0 + dx, y0 + dy)]
+            rng.shuffle(p)
+        t[1:7] = [str(v) for q_ in p for v in q_]
+    elif fam == 'poly' and k < 0.3 and int(t[3]) >= 2:
+        n = int(t[3])
+        i = rng.randrange(n - 1)
+        if k < 0.1:
+            for j in range(n):
+                t[4 + 2 * j], t[5 + 2 * j] = t[4], t[5]
+        else:
+            t[4 + 2 * (i + 1)], t[5 + 2 * (i + 1)] = t[4 + 2 * i], t[5 + 2 * i]
+    return ' '.join(t)
 
 
 def search_default(tier, rng):
@@ -292,6 +350,10 @@ def search_default(tier, rng):
     yield 'p_total tri -480 -1 240 909 1 422 S 0 1 1 2'
     yield 'p_total image 3 3 10 10 7'
     yield 'p_total tri 10 10 410 10 10 410 S 1 0 0 1'
+    yield 'p_total rect 0 0 1024 1024 S 0 1 4 1 1'
+    yield 'p_total rect -1024 -1024 1024 1 S 1 1 5 2 1'
+    yield 'p_total line 7 7 7 7 S 0 1 30 1'
+    yield 'p_total tri 5 5 5 5 5 5 S 1 1 9 2'
     yield 'p_total text 5 -7 0 1 1 0 10 15 3'
     for k in range(n):
         fam = FAMILIES[k % len(FAMILIES)]
@@ -326,9 +388,12 @@ def search_default(tier, rng):
                 case = J('poly', 0, 0, nv, *[xb(rng) for _ in range(2 * nv)], 'S', 0, 0, 0, 0)
         else:
             case = zoo_case(rng, fam, c=cb, e=e, maxw=0, absolute=True, dotted=True)
+        case = degenerate(rng, case)
         if ' S ' in case:
             head, _ = case.rsplit(' S ', 1)
             case = head + ' ' + J('S', rng.randrange(2), rng.randrange(2), rng.choice(W), rng.randrange(3))
-            if case.startswith('rect ') and rng.random() < 0.35:
-                case += ' 1'   # dotted stroke style
+            if case.startswith('rect ') and rng.random() < 0.4:
+                # dotted stroke style: widths around the `dot_size < 4` switch of rectangle/styled.rs, full-size rectangles
+                head, _ = case.rsplit(' S ', 1)
+                case = head + ' ' + J('S', rng.randrange(2), 1, rng.choice([1, 2, 3, 4, 5, 8, 16, 31, 32, 63, 128]), rng.randrange(3), 1)
         yield 'p_total ' + case
